@@ -52,6 +52,95 @@ def expected_header(kind: str, api_key: int, version: int, flexible: bool) -> st
     return "response1" if flexible else "response0"
 
 
+COLD_IMPORT_SNIPPET = r"""
+import sys, json, threading, time
+sys.path.insert(0, {verif!r})
+from kv import common  # puts the working tree first on sys.path
+from kio import index
+from kio.schema import index as sidx
+from kio.static.constants import EntityType
+picks = {picks!r}
+mon = sys.monitoring
+mon.use_tool_id(2, "kv-park")
+state = {{"target": None, "parked": threading.Event()}}
+def on_start(code, offset):
+    t = state["target"]
+    if t is not None and code.co_name == "<module>" and code.co_filename.endswith(t):
+        state["target"] = None
+        state["parked"].set()
+        time.sleep(0.4)   # the importing thread is parked inside the module body, holding the import lock
+    return None
+mon.register_callback(2, mon.events.PY_START, on_start)
+mon.set_events(2, mon.events.PY_START)
+out = []
+for api, ver, et in picks:
+    path = sidx.schema_name_map[api][ver][EntityType[et]]
+    modname = path.split(":")[0]
+    if modname in sys.modules:
+        out.append([api, ver, et, "already imported", "skipped"])
+        continue
+    state["target"] = "/" + modname.replace(".", "/") + ".py"
+    state["parked"].clear()
+    results = {{}}
+    def look(who):
+        try:
+            cls = index.load_entity_schema(api, ver, EntityType[et])
+            results[who] = f"{{cls.__module__}}:{{cls.__qualname__}}"
+        except BaseException as exc:
+            results[who] = "raised " + repr(exc)[:200]
+    a = threading.Thread(target=look, args=("importer",))
+    a.start()
+    parked = state["parked"].wait(20)
+    b = threading.Thread(target=look, args=("second",))
+    b.start()
+    a.join(30); b.join(30)
+    out.append([api, ver, et, path, results.get("importer"), results.get("second"), parked])
+mon.set_events(2, 0)
+print(json.dumps(out))
+"""
+
+
+def cold_import_race(res: Result, npicks: int) -> None:
+    """Schedule injection at a hook: in a fresh interpreter one thread is parked *inside the body* of a schema module it is importing
+    for the first time (it holds the import lock, the module sits half-initialised in sys.modules) while a second thread looks the
+    same entity up.  Both must get exactly the indexed class (the second one simply waits for the import to finish)."""
+    import subprocess
+    import sys
+
+    from kio.schema import index as sidx
+
+    rng = common.rng_for(res.prop, "cold-import")
+    entries = [(api, ver, et.name) for api, vm in sidx.schema_name_map.items() for ver, tm in vm.items() for et in tm]
+    picks = []
+    seen_pkg = set()
+    for api, ver, et in rng.sample(entries, len(entries)):
+        if (api, ver) not in seen_pkg and api not in ("request_header", "response_header", "metadata"):
+            seen_pkg.add((api, ver))
+            picks.append([api, ver, et])
+        if len(picks) >= npicks:
+            break
+    code = COLD_IMPORT_SNIPPET.format(verif=str(common.VERIF), picks=picks)
+    try:
+        p = subprocess.run([sys.executable, "-c", code], capture_output=True, text=True, timeout=600, cwd=str(common.VERIF))
+        rows = json.loads(p.stdout.strip().splitlines()[-1])
+    except Exception as exc:  # noqa: BLE001
+        res.inconclusive_because(f"cold import race did not report: {exc!r}")
+        return
+    for row in rows:
+        if row[4] == "skipped":
+            res.count("cold_import_race_skipped")
+            continue
+        api, ver, et, path, first, second, parked = row
+        if not parked:
+            res.count("cold_import_race_not_parked")
+            continue
+        res.count("cold_import_races")
+        if first != path or second != path:
+            res.violation(f"cold-import-race:{(second if second != path else first).split('(')[0]}",
+                          f"({api}, {ver}, {et}): while one thread was inside the first import of the module, lookups gave importer={first!r} second={second!r}, expected {path}",
+                          {"api": api, "version": ver, "type": et, "importer": first, "second": second})
+
+
 # ---------------------------------------------------------------------------------------
 # C08
 
@@ -121,12 +210,22 @@ def run_c08(tier_: str) -> int:
             res.violation(f"pair-lookup-raises:{api}:v{ver}", f"{api} v{ver}: request/response mapping raised {exc!r}",
                           {"api": api, "version": ver, "error": traceback.format_exc()})
             continue
+        try:
+            # the functions also accept instances
+            rq_i = describe.tree_to_instance(describe.spec_from_class(rq), _minimal_tree(describe.spec_from_class(rq)))
+            rs_i = describe.tree_to_instance(describe.spec_from_class(rs), _minimal_tree(describe.spec_from_class(rs)))
+            if index.load_response_from_request(rq_i) is not rs or index.load_request_from_response(rs_i) is not rq:
+                res.violation(f"pair-by-instance:{api}:v{ver}", f"{api} v{ver}: pairing functions give another class for an instance than for its class", {"api": api, "version": ver})
+            res.count("pairs_by_instance")
+        except Exception as exc:  # noqa: BLE001
+            res.violation(f"pair-by-instance-raises:{api}:v{ver}", f"{api} v{ver}: pairing by instance raised {exc!r}", {"api": api, "version": ver, "error": traceback.format_exc()})
         if a is not rs or b is not rq or a2 is not rs or b2 is not rq:
             res.violation(f"pair-not-inverse:{api}:v{ver}",
                           f"{api} v{ver}: load_response_from_request / load_request_from_response are not mutually inverse",
                           {"api": api, "version": ver, "resp_from_req": walk.class_path(a), "req_from_resp": walk.class_path(b)})
         else:
             pairs += 1
+    cold_import_race(res, 5 if tier_ == "quick" else 40)
     res.coverage["rule_branches_exercised"] = branches
     res.coverage["pairs_inverted"] = pairs
     res.coverage["exhaustive"] = True
@@ -283,6 +382,7 @@ def run_c09(tier_: str) -> int:
             if name in versions_of:
                 continue
             expect_miss("random-name", rng.choice(fns_name), (name, rng.choice((0, 1, rng.randint(-3, 20))), rng.choice(ets)), (UE,))
+    cold_import_race(res, 5 if tier_ == "quick" else 40)
     res.coverage["miss_probes_by_kind"] = miss_kinds
     res.coverage["miss_exception_classes_seen"] = exc_seen
     res.coverage["exhaustive"] = True
